@@ -13,6 +13,7 @@ From PV Require Import Model.Registry Proofs.RegistryFacts Proofs.RegistryProofs
 From PV Require Import Model.RegistryConc Proofs.RegistryConcProofs Model.RegisterHelpers Proofs.RegisterHelpersProofs.
 From PV Require Import Model.RegistrySection Proofs.RegistrySectionProofs.
 From PV Require Import Model.RegistryDecode Proofs.RegistryDecodeProofs.
+From PV Require Import Model.RegistryOverlay Proofs.RegistryOverlayProofs.
 From Coq Require Import String.
 Import ListNotations.
 
@@ -388,3 +389,73 @@ Example C18_factory_form_examples :
   new_factory_request [(0, [0])] (mkGt true 0 [TyIface 0; TyError]) 0 = FqReaches 0 true /\
   new_factory_request [(0, [0])] (mkGt true 0 [TyOther]) 0 = FqPanic.
 Proof. vm_compute. repeat split. Qed.
+
+(* ---- round 8: config structs with map-, slice- and nested-struct-typed fields whose registered
+   default is not empty (Model/RegistryOverlay.v: the decoder of the fill as the code goes,
+   ZeroFields = false), and registered names as byte strings ---- *)
+
+(* the fill fails exactly when the settings are not acceptable for the config struct: a key names
+   no field (also inside a nested struct) or a value has the wrong kind for its field *)
+Theorem C18_overlay_accepts : forall fs sec, ovl_some (dec_cfg fs sec) = ovl_accepted_b fs sec.
+Proof. exact dec_cfg_accepts. Qed.
+Print Assumptions C18_overlay_accepts.
+
+(* and otherwise what it leaves in the config IS the registered default overlaid by the settings
+   (cfg_agrees_b, the verdict function of the ovl cases): numbers and slices the section's where
+   given, maps key by key, nested structs field by field, everything else as the default made it *)
+Theorem C18_overlay_config : forall fs sec r, dec_cfg fs sec = Some r -> cfg_agrees_b fs sec r = true.
+Proof. exact dec_cfg_agrees. Qed.
+Print Assumptions C18_overlay_config.
+
+(* a map held by the default: the keys the section's map does not mention keep the default's
+   value, the ones it mentions hold the section's *)
+Theorem C18_overlay_map_keys : forall dm um k,
+  alookup k um = None -> alookup k (dec_map dm um) = alookup k dm.
+Proof. exact overlay_map_keeps. Qed.
+Theorem C18_overlay_map_sets : forall dm um k v,
+  alookup k um = Some (Some v) -> alookup k (dec_map dm um) = Some v.
+Proof. exact overlay_map_sets. Qed.
+Print Assumptions C18_overlay_map_sets.
+Print Assumptions C18_overlay_map_keys.
+
+(* a field - of whatever kind - whose key the section does not have, or has with a nil value,
+   stays as the default made it *)
+Theorem C18_overlay_absent_or_nil_keeps_default : forall fs sec r f cur,
+  dec_cfg fs sec = Some r -> alookup f fs = Some cur ->
+  alookup f sec = None \/ alookup f sec = Some UNull ->
+  alookup f r = Some cur.
+Proof. exact dec_cfg_keeps. Qed.
+Print Assumptions C18_overlay_absent_or_nil_keeps_default.
+
+(* registered names are exact: after registering the (name, entry) pairs l one by one (the empty
+   name and a name already there are refused), a name finds the entry registered under exactly
+   these bytes - whatever other names (differing by case, separators, digits) are registered *)
+Theorem C18_name_lookup_exact : forall l r n e,
+  nregister_all [] l = Some r -> (nlookup r n = Some e <-> In (n, e) l).
+Proof. exact nlookup_exact. Qed.
+Print Assumptions C18_name_lookup_exact.
+
+(* creation by name through the config hooks / the registry: judged by named_spec_b (the verdict
+   function of the nm cases) *)
+Theorem C18_named_creation : forall l r v,
+  nregister_all [] l = Some r -> named_spec_b l v (create_named r v) = true.
+Proof. exact create_named_spec. Qed.
+Print Assumptions C18_named_creation.
+
+(* non-vacuity: default {labels: {1: 10, 2: 20}, n: 5, l: [1;2;3], sub: (x = 1, y = 2)} under the section
+   {labels: {2: 99}, sub: {y: 7}, n: nil}: labels keeps key 1, sub keeps x, n keeps 5, l untouched;
+   names "Shout" / "shout" registered: each spelling finds its own entry, "SHOUT" nothing *)
+Example C18_overlay_examples :
+  dec_cfg [(1, FMap [(1, 10); (2, 20)]); (2, FNum 5); (3, FList [1; 2; 3]); (4, FSub [(1, 1); (2, 2)])]%N
+          [(1, UMap [(2, Some 99)]); (4, UMap [(2, Some 7)]); (2, UNull)]%N =
+    Some [(1, FMap [(1, 10); (2, 99)]); (2, FNum 5); (3, FList [1; 2; 3]); (4, FSub [(1, 1); (2, 7)])]%N /\
+  dec_cfg [(1, FNum 5)]%N [(9, UNum 1)]%N = None /\
+  dec_cfg [(4, FSub [(1, 1)])]%N [(4, UMap [(3, Some 1)])]%N = None /\
+  cfg_agrees_b [(1, FMap [(1, 10); (2, 20)])]%N [(1, UMap [(2, Some 99)])]%N [(1, FMap [(2, 99)])]%N = false /\
+  cfg_agrees_b [(2, FNum 5)]%N [(2, UNull)]%N [(2, FNum 0)]%N = false /\
+  (exists r, nregister_all [] [([83; 104]%N, 0); ([115; 104]%N, 1)] = Some r /\
+     create_named r [83; 104]%N = NReaches 0 /\ create_named r [115; 104]%N = NReaches 1 /\
+     create_named r [83; 72]%N = NUnknown /\
+     named_spec_b [([83; 104]%N, 0); ([115; 104]%N, 1)] [83; 104]%N (NReaches 1) = false /\
+     named_spec_b [([83; 104]%N, 0)] [83; 104]%N NUnknown = false).
+Proof. vm_compute. repeat split. eexists. repeat split. Qed.
